@@ -4,8 +4,9 @@ CONF = {
     "level_text": "The schedules explored are those the Go scheduler produces for the generated request sets, jitter values and GOMAXPROCS settings; the harness does not own the scheduler, so this is sampling of interleavings, made sharper by the race detector (which reports unsynchronised access pairs even when the interleaving that corrupts data did not happen).",
     "race": True,
     "campaigns": [rapid("rapid", 1600, 40000, bq=70, bt=1500, env={"GORACE": "halt_on_error=1"})],
-    "floors": {"kind:plugin": 0.15, "kind:sim": 0.5, "shared-object-contended": 0.3, "requests>=8": 0.1, "via:http-server": 0.08},
+    "floors": {"mode:actual-response": 0.1, "kind:plugin": 0.15, "kind:sim": 0.5, "shared-object-contended": 0.3, "requests>=8": 0.1, "via:http-server": 0.08},
     "assumptions": [
+        "both answer modes of the simulator are driven: the flow report (default) and the actual response (context.WithActualResponse, the --proxy mode of falco simulate); in the latter the comparison covers status, body and the headers the VCL and the cache produce (X-Echo, X-Echo-Err, X-Cache, X-Cache-Hits, X-RC, X-PB, X-Origin)",
         "responses are compared on flows, logs, restarts, error, status, cached and non-volatile headers (Date, Age, X-Timer, X-Served-By, Fastly-Debug-* excluded)",
         "the shared objects of the synthesised VCL (three cacheable URLs, two rate-counter keys, two penalty-box keys) are independent of each other, so existence of a serial order factorises per object",
         "rate windows are 60 s and TTLs 1 h: no expectation depends on the clock within a case (cases last milliseconds)",
